@@ -174,7 +174,7 @@ def shard(ctx):
         ctx.evaluations -= 1
         check(ctx, case)
 
-    ctx.run_hypothesis(gen.problems(PROFILE).map(lambda p: {"problem": p}), oracle, ctx.scale(9000, 60000))
+    ctx.run_hypothesis(gen.problems(PROFILE).map(lambda p: {"problem": p}), oracle, ctx.scale(18000, 90000))
 
 
 def replay(ctx, case):
